@@ -165,7 +165,7 @@ type DocGen struct {
 func NewDocGen(r *Rng, maxNodes, maxDepth int) *DocGen {
 	return &DocGen{
 		R: r, MaxNodes: maxNodes, MaxDepth: maxDepth,
-		Locals:   []string{"a", "b", "c", "d", "item", "x-y", "div", "é"},
+		Locals:   []string{"a", "b", "c", "d", "item", "x-y", "div", "é", "a", "b", "child", "descendant", "node", "text", "self"},
 		URIs:     []string{"", "", "urn:u1", "urn:u2", "http://example.com/ns"},
 		Prefixes: []string{"", "p", "q", "r"},
 		Texts: []string{"1", "2", "10", "9", " 12 ", "3.5", "-4", "abc", "", "x y", "NaN", "1e3", "0", "-0", "007",
@@ -195,7 +195,7 @@ func (g *DocGen) elem(depth int) *Node {
 	if g.R.Chance(2, 3) {
 		n.NS = append(n.NS, NSDecl{"xml", xmlNS})
 	}
-	nns := g.R.Intn(3)
+	nns := g.R.Intn(4)
 	if g.R.Chance(1, 2) {
 		nns = 0
 	}
@@ -206,6 +206,16 @@ func (g *DocGen) elem(depth int) *Node {
 			d.URI = "urn:u1"
 		}
 		n.NS = append(n.NS, d)
+	}
+	// the same prefix announced again on this element after other declarations
+	// (a Parser may do that; the store replaces in place), sometimes the xml prefix
+	if len(n.NS) >= 2 && g.R.Chance(1, 4) {
+		again := n.NS[g.R.Intn(len(n.NS)-1)]
+		n.NS = append(n.NS, NSDecl{again.Prefix, pick(g.R, []string{again.URI, "urn:u2", "urn:u3"})})
+	}
+	// undeclaring the default namespace while other bindings are inherited
+	if depth > 1 && g.R.Chance(1, 8) {
+		n.NS = append(n.NS, NSDecl{"", ""})
 	}
 	nat := g.R.Intn(4)
 	if g.R.Chance(1, 3) {
